@@ -735,6 +735,13 @@ impl<'tcx> Cx<'tcx> {
             if matches!(kind, DefKind::Fn | DefKind::AssocFn) {
                 let sig = tcx.fn_sig(def_id).instantiate_identity().skip_binder();
                 o = o.s("sig", &with_no_trimmed_paths!(format!("{:?}", sig)));
+                let ins: Vec<String> = sig
+                    .inputs()
+                    .iter()
+                    .map(|t| esc(&self.ty_s(tcx.erase_and_anonymize_regions(*t))))
+                    .collect();
+                o = o.raw("sig_inputs", jarr(ins));
+                o = o.s("sig_output", &self.ty_s(tcx.erase_and_anonymize_regions(sig.output())));
             }
             // impl info
             if kind == DefKind::AssocFn {
